@@ -22,7 +22,18 @@ def main():
     if a.replay:
         payload = C.unjson(json.load(open(a.replay)))
         sys.exit(mod.replay(payload))
-    sys.exit(mod.run(a.tier))
+    try:
+        rc = mod.run(a.tier)
+    except Exception:  # noqa
+        # the harness itself could not complete on this tree: the property is no longer shown to hold
+        import traceback
+        tb = traceback.format_exc()
+        path = C.write_replay(a.pid, {"property": a.pid, "kind": "unproved", "broken": [{"name": "check harness raised", "detail": tb[-3000:]}],
+                                      "note": "the correspondence harness could not process the implementation's behaviour"})
+        print(tb[-1500:])
+        print("VIOLATION property=%s replay=%s no-failing-input-found" % (a.pid, path))
+        rc = 1
+    sys.exit(rc)
 
 
 if __name__ == "__main__":
